@@ -39,7 +39,13 @@ MODULES = [
     "funsor.testing",
 ]
 
-_WORLD = None
+_WORLD = {}
+TIER = {"t": "quick"}
+CORPUS_TYPE_BOUND = 80  # distinct argument types of the recorded corpus added to the type pool (first come)
+
+
+def set_tier(tier):
+    TIER["t"] = "thorough" if tier == "thorough" else "quick"
 
 
 def unwrap(t):
@@ -298,10 +304,12 @@ def _values():
 # corpus of real interpretation calls
 
 
-def _corpus(values):
+def _corpus(values, tier):
     """Run small programs under several interpretations with a recording interpretation on top of the stack.
 
-    Returns a list of (key class, args) in execution order, de-duplicated on (key name, deep types)."""
+    Returns a list of (key class, args) in execution order, de-duplicated on (key class, deep types of the args).
+    The thorough tier additionally records every interpretation call made while building the complete depth-1
+    level of the C01 program space (fv.gen) under eager, lazy and normalize."""
     import funsor
     from funsor import Bint, Real, ops
     from funsor.adjoint import adjoint
@@ -312,8 +320,11 @@ def _corpus(values):
     from funsor.optimizer import apply_optimizer
     from funsor.terms import Approximate, Variable
 
+    from funsor.typing import deep_type, get_origin
+
     V = dict(values)
     log = []
+    seen = set()
 
     class Recorder(Interpretation):
         is_total = True
@@ -323,7 +334,13 @@ def _corpus(values):
             self.base = base
 
         def interpret(self, cls, *args):
-            log.append((cls, args))
+            try:
+                k = (get_origin(cls), tuple(map(deep_type, args)))
+                if k not in seen:
+                    seen.add(k)
+                    log.append((cls, args))
+            except (NotImplementedError, TypeError):
+                pass
             return self.base.interpret(cls, *args)
 
     def run(interp, thunk):
@@ -398,6 +415,14 @@ def _corpus(values):
     for ap in (argmax_approximate, mean_approximate, laplace_approximate):
         run(ap, lambda: Approximate(ops.logaddexp, g + t_i, g, frozenset([x])))
         run(ap, lambda: (g + t_i).approximate(ops.logaddexp, g, "x"))
+    if tier == "thorough":
+        from .. import gen
+        from ..ref import lang
+
+        for e in gen.corpus("quick", depth=1):
+            e = lang.tuplify(e)
+            for interp in (eager, lazy, normalize):
+                run(interp, lambda: lang.build(e, 0))
     return log
 
 
@@ -566,6 +591,8 @@ def _pool(disp, values, corpus):
         pool.setdefault(ref.text(ref.describe(t)), t)
     n_main = len(pool)
     for t in extra:
+        if len(pool) >= n_main + CORPUS_TYPE_BOUND:
+            break
         try:
             pool.setdefault(ref.text(ref.describe(t)), t)
         except ref.Unsupported:
@@ -576,11 +603,12 @@ def _pool(disp, values, corpus):
 
 
 def world():
-    global _WORLD
-    if _WORLD is None:
+    tier = TIER["t"]
+    if tier not in _WORLD:
         regs, disp = _find_dispatchers()
         values = _values()
-        corpus = _corpus(values)
+        with np.errstate(all="ignore"):
+            corpus = _corpus(values, tier)
         pool, stats = _pool(disp, values, corpus)
-        _WORLD = {"registries": regs, "dispatchers": disp, "values": values, "corpus": corpus, "pool": pool, "pool_stats": stats}
-    return _WORLD
+        _WORLD[tier] = {"registries": regs, "dispatchers": disp, "values": values, "corpus": corpus, "pool": pool, "pool_stats": stats}
+    return _WORLD[tier]
